@@ -553,6 +553,33 @@ pub fn generate(ctx: &mut GenCtx) {
         }
         ctx.emit(&s);
     }
+    // 8. small sorts (2..20 rows, 1-3 keys, ANY values, unbound cells): the exact output order against the model of std's
+    // insertion sort; small column pools so that ties (where the algorithm shows) are frequent
+    for _ in 0..(if thorough { 600 } else { 80 }) {
+        let nkeys = ctx.rng.range(1, 3);
+        let nrows = ctx.rng.range(2, 20);
+        let dirs: String = (0..nkeys).map(|_| if ctx.rng.chance(1, 2) { 'A' } else { 'D' }).collect();
+        let cols: Vec<Vec<T>> = (0..nkeys)
+            .map(|_| {
+                let k = ctx.rng.range(2, 7);
+                (0..k).map(|_| if ctx.rng.chance(2, 3) { ctx.rng.pick(&all).clone() } else { random_value(&mut ctx.rng, &tab) }).collect()
+            })
+            .collect();
+        let mut s = format!("Q {} {} {}", dirs, nrows, nkeys);
+        for _ in 0..nrows {
+            for col in cols.iter() {
+                if ctx.rng.chance(1, 7) {
+                    s.push_str(" -");
+                } else {
+                    s.push(' ');
+                    s.push_str(&ctx.rng.pick(col).render());
+                }
+            }
+        }
+        ctx.stats.bump(&format!("Q.keys{}", nkeys));
+        ctx.stats.add("Q.rows", nrows as u64);
+        ctx.emit(&s);
+    }
     // 7. keys that are not plain variables: `?k + 0` (EvalResult::Value), BIND(?k * 1 AS ?b) (ResultTerm with a pre-computed
     // value and a generated lexical form), STR(?k)
     for k in 0..(if thorough { 240 } else { 36 }) {
@@ -1041,6 +1068,41 @@ fn exec_x(mode: KeyMode, ts: &[T]) -> String {
     out
 }
 
+/// Q requests: 2..20 rows (any values, also ones on which the comparator is inconsistent) sorted together in the given
+/// input order, with the given flags and with all flags flipped.  The exact output order is compared with the model's
+/// `stdSmallSort` (std's insertion sort for <= 20 elements driven by `cmpBindingsWith`); a permutation in any case.
+fn exec_small(dirs: Vec<bool>, rows: &[Row]) -> String {
+    let n = rows.len();
+    let ds = build(rows, false);
+    let br: Vec<String> = (0..n).map(|i| branch(&format!("s{}", i), &rows[i])).collect();
+    let flipped: Vec<bool> = dirs.iter().map(|d| !d).collect();
+    let mut out = format!("n={}", n);
+    let mut fails: Vec<String> = vec![];
+    for (name, d) in [("out", &dirs), ("outd", &flipped)] {
+        match run(&ds, &br, dirs.len(), &order_clause(d)) {
+            Err(e) => fails.push(format!("FAIL.{}={}", if e.starts_with("panic") { "panic" } else { "error" }, hex(&e))),
+            Ok(o) => {
+                let idx: Option<Vec<usize>> = o.iter().map(|s| s.strip_prefix('s').and_then(|x| x.parse().ok())).collect();
+                let idx = idx.unwrap_or_default();
+                let mut sorted = idx.clone();
+                sorted.sort();
+                if sorted != (0..n).collect::<Vec<_>>() {
+                    fails.push(format!("FAIL.perm={}", hex(&format!("{:?}", o))));
+                } else {
+                    out += &format!(" {}={}", name, idx.iter().map(|i| i.to_string()).collect::<Vec<_>>().join(","));
+                }
+            }
+        }
+    }
+    fails.sort();
+    fails.dedup();
+    for f in fails {
+        out.push(' ');
+        out.push_str(&f);
+    }
+    out
+}
+
 /// M requests: one sort of many rows with several keys, unbound cells, ASC/DESC and optionally LIMIT/OFFSET.  Every key
 /// column is drawn from ONE comparison class (the generator's clean pools), where the comparator is proved to be a total
 /// preorder (`sorted_perm`): the output must be a permutation, sorted (adjacent and sampled pairs, observed by two-row
@@ -1171,6 +1233,21 @@ pub fn exec(line: &str) -> String {
                 return "bad-op".into();
             }
             exec_x(mode, &ts)
+        }
+        Some("Q") => {
+            let Some(dirs) = toks.next() else { return "bad-op".into() };
+            let (Some(nr), Some(nk)) = (toks.next().and_then(|s| s.parse::<usize>().ok()), toks.next().and_then(|s| s.parse::<usize>().ok())) else {
+                return "bad-op".into();
+            };
+            if dirs.len() != nk || nk == 0 || nr < 2 || nr > 20 || !dirs.chars().all(|c| c == 'A' || c == 'D') {
+                return "bad-op".into();
+            }
+            let mut rows = vec![];
+            for _ in 0..nr {
+                let Some(r) = parse_cells(&mut toks, nk) else { return "bad-hex".into() };
+                rows.push(r);
+            }
+            exec_small(dirs.chars().map(|c| c == 'D').collect(), &rows)
         }
         Some("M") => {
             let Some(dirs) = toks.next() else { return "bad-op".into() };
